@@ -25,7 +25,8 @@ def run(ctx):
         "target that announces itself with a banner, own connection-counting relay in front) or a scripted failing endpoint. "
         "(A) lists of 1-4 upstreams over {tcp, tcp+tls, ws, udp}: every failing subset for lengths 1-3 (x3 quick / x10 thorough with manners and "
         "kinds handed out round-robin) and a seeded sample of 4-entry lists; failing manners {refused, handshake answered 400 / garbage / closed, "
-        "plain server while --secure, silent = accepts and never answers (also after the carrier's own TLS / websocket handshake; udp: closed port)}; "
+        "plain server while --secure, silent = accepts and never answers (also after the carrier's own TLS / websocket handshake; udp: closed port; "
+        "also only after a valid '200' to the announce request, and inside StartTLS after '200 StartTLS' + '101' - on tcp, tcp+tls, ws, udp)}; "
         "forward address {none, reachable, refused} for every list; oracle: the application is served by the forward target if reachable, else by the "
         "first good upstream in list order, else its connection is closed; with a reachable forward no upstream is contacted. Silent upstreams: "
         "violation only if the client's Connect call on the silent entry is still running after >= 95 s without the next upstream being tried and "
@@ -33,7 +34,9 @@ def run(ctx):
         "physical connection at the relay and keyed data verified on every one. (C) loss histories on tcp / tcp+tls / ws: relay cut by FIN or RST "
         "while idle / in the middle of a transfer / inside an open (hook between lock release and stream open); server restart on the same "
         "address (listener gone + connections reset + new server), restart with an attempt while down, server gone for good with a second upstream "
-        "listed; thorough: black-holed carrier on tcp/ws/udp (judged after the client itself gave up a connection on the dead session). Then the "
+        "listed; a BURST of m in {2,8} local connections at once after a FIN/RST cut (idle / mid-transfer; each history x3 quick / x8 thorough, hooks "
+        "stagger the interleavings between lock release and stream open): every one served with verified data twice over, exactly ONE new physical "
+        "session (relay count corroborated by the server's accepted-session count) also after one more connection; thorough: black-holed carrier on tcp/ws/udp (judged after the client itself gave up a connection on the dead session). Then the "
         "NEXT local connection must be served by the right server with verified data. Distinct = the whole case descriptor; non-trivial = the "
         "served/closed/stalled outcome was observed and compared with the model.",
         ["loopback sockets stand for the network; a server restart is emulated by shutting the server command down, resetting its connections at the relay "
